@@ -1557,6 +1557,8 @@ class Engine:
         return out
 
     def getattr_(self, st, o, attr, node):
+        if isinstance(o, UndefV):
+            return [(st, o, None)]
         src = ast.unparse(node)
         if isinstance(o, GlobalV):
             d = f"{o.dotted}.{attr}"
@@ -1618,8 +1620,8 @@ class Engine:
         return out
 
     def getitem(self, st, o, k, node):
-        if isinstance(o, UndefV):
-            return [(st, o, None)]
+        if isinstance(o, UndefV) or isinstance(k, UndefV):
+            return [(st, UNDEF, None)]
         if isinstance(o, tuple):
             if isinstance(k, int):
                 return [(st, o[k], None)]
